@@ -116,7 +116,22 @@ class Hist5(ig.Hist):
             a = rng.choice(nested) if nested and rng.random() < 0.25 else rng.choice(attrs)
             kind = rng.choice(["with", "with", "update", "transform", "reset"])
             return self.scalar_call(x, cid, a, kind, inplace)
+        dep = [a for a in self.attrs_of(cid) if a.get("inv_by")]
+        if dep and rng.random() < 0.25:
+            return self.dependant_transform(x, cid, dep[0], inplace)
         return self.top_call(x, cid, rng.choice(["update_top", "transform_top", "reset_top"]), inplace)
+
+    def dependant_transform(self, x, cid, dep, inplace=None):
+        """transform(x=f, dependant=g) with `dependant` invalidated_by x and holding a non-default
+        value: g must see the dependant AFTER the invalidation caused by storing f(x)"""
+        rng = self.rng
+        self.add(("setattr", x, dep["aid"], V(rng.choice([1, 2]))), ("none",))
+        h = self.flags(inplace)
+        h["if_"] = True
+        h["kwfn"] = [(1, rng.choice([("addint", 1), ("const", V(7))])), (dep["aid"], rng.choice([("id",), ("id",), ("const", V(0))]))]
+        if rng.random() < 0.3:
+            h["fn"] = ("id",)
+        return ("helper", x, ("transform_top", None), h)
 
     # ---- relations
     def rel_copy_vs_inplace(self, x, cid):
